@@ -216,6 +216,7 @@ pub fn lu_replay(path: &str) -> Result<Value, String> {
     let q = |v: &Value| v[0].as_f64().unwrap() / v[1].as_f64().unwrap();
     let dual = |v: &Value| Dual64::new(q(&v["re"]), q(&v["eps"]));
     let mut cases = 0u64;
+    let mut inexact = 0u64;
     for line in text.lines() {
         let l = line.trim();
         let Some(rest) = l.strip_prefix("<<\"LU\", ") else { continue };
@@ -230,9 +231,14 @@ pub fn lu_replay(path: &str) -> Result<Value, String> {
         let status = c["status"].as_str().unwrap_or("");
         let swaps = c["swaps"].as_u64().unwrap_or(0);
         let tag = format!("n{n}|{status}|swaps{swaps}");
+        // the rational run equals the float run only while every multiplier and entry is dyadic; otherwise a pivot
+        // that is exactly zero over the rationals is a rounding residue in floats (and vice versa)
+        let dyadic = c["dyadic"].as_bool().unwrap_or(true);
         let r = std::panic::catch_unwind(std::panic::AssertUnwindSafe(|| LU::<Dual64, f64>::new(a.clone())));
         match (status, r) {
             ("fail", Ok(Err(_))) => rep.check(&format!("LU|singular|{tag}"), 0.0, 1.0, || json!({})),
+            ("fail", Ok(Ok(_))) if !dyadic => { inexact += 1; }
+            ("done", Ok(Err(_))) if !dyadic => { inexact += 1; }
             ("fail", other) => rep.check(&format!("LU|singular|{tag}"), f64::INFINITY, 1.0, || json!({"a": c["a"], "observed": match other { Ok(Ok(_)) => "Ok(factorisation)", Ok(Err(_)) => "Err", Err(_) => "panic" }})),
             ("done", Ok(Ok(lu))) => {
                 let det = lu.determinant();
@@ -250,5 +256,5 @@ pub fn lu_replay(path: &str) -> Result<Value, String> {
         }
     }
     Ok(json!({"cases": cases, "checks": rep.checks, "distinct_cases": rep.per_case.len(), "per_case": rep.per_case,
-              "n_violations": rep.n_viol, "violations": rep.violations, "samples": rep.samples}))
+              "singularity_undecidable_in_floats": inexact, "n_violations": rep.n_viol, "violations": rep.violations, "samples": rep.samples}))
 }
